@@ -202,6 +202,9 @@ def case_dmrg(ctx, i):
             untruncated = False
             chi_max = int(rng.integers(2, 5))
             opts['trunc_params']['chi_max'] = chi_max
+        if rng.random() < 0.5:
+            engine, mixer = 'TwoSiteDMRGEngine', 'DensityMatrixMixer'  # (the combination whose result is exactly normalised)
+            opts['mixer'] = mixer
         ctx.count('mixer_kept_on_until_the_end')
     if diag in ('default', 'lanczos') and rng.random() < 0.4:
         # documented eigensolver option: the reported energies are those of H, not of the shifted operator
@@ -303,6 +306,11 @@ def case_dmrg(ctx, i):
         if not (abs(nrm - 1) <= 1e-2):
             return
     v = v / nrm
+    # the Schmidt values stored on every bond are normalised (every decomposition of an update normalises them, mixers included)
+    s_dev = max(abs(float(np.linalg.norm(psi.get_SL(k))) - 1.) for k in range(1, L))
+    if not (s_dev <= 1e-10):
+        ctx.violation('DMRG%s:stored-Schmidt-values-not-normalised:%s:%s' % (late, engine, mixer_class[0] if late else mixer),
+                      '%s: max_b | |S_b| - 1 | = %g' % (tag, s_dev), case)
     # Schmidt values of the returned state: trunc_params['svd_min'] (1e-12 here) discards smaller ones in every update, and form
     # conversions (get_B(form='A'), a fresh MPOEnvironment) divide by them
     s_min = min(float(np.min(psi.get_SL(k))) for k in range(1, L))
